@@ -21,7 +21,7 @@ ASSUMPTIONS = [
 CASES = {"quick": 8000, "thorough": 300000}
 MIN_CASES = {"quick": 3000, "thorough": 60000}
 REQUIRED_CLASSES = ["stog", "near_gap", "near_overhang", "near_overlap", "dup_trunk", "dup_branch", "bag", "equal_area"]
-REQUIRED_COUNTERS = ["calls_judged", "judged_true", "judged_false", "roles_checked", "identity_checked", "via:netlist", "via:module", "via:direct", "netlist_kind:soft", "netlist_kind:hard", "netlist_kind:fixed"]
+REQUIRED_COUNTERS = ["calls_judged", "judged_true", "judged_false", "roles_checked", "identity_checked", "via:netlist", "via:module", "via:direct", "netlist_kind:soft", "netlist_kind:hard", "netlist_kind:fixed", "re_recognition_after_in_place_change"]
 
 _g = None
 _mod = None
@@ -329,3 +329,23 @@ def check(case, ctx):
                 if locs[k] != sides[k]:
                     ctx.violation("wrong_side", f"rectangle {k} labelled {locs[k]}, reference {sides[k]}; roles={locs}; order={order}")
                     break
+        # the same objects, moved / resized in place, recognised again: the answer must follow the geometry they have NOW
+        if via == "direct" and n >= 2 and perm == perms[0]:
+            j = prng.randrange(1, n)
+            big = max(max(s_[2], s_[3]) for s_ in specs)
+            how = prng.choice(["move_x", "move_y", "shrink_w", "grow_h"])
+            if how == "move_x":
+                objs[j].center.x += 3 * big
+            elif how == "move_y":
+                objs[j].center.y += 3 * big
+            elif how == "shrink_w":
+                objs[j].shape.w *= 0.5
+            else:
+                objs[j].shape.h *= 1.5
+            ok, again = ctx.call(g.create_stog, objs)
+            X2 = [XR.of(o) for o in objs]
+            ref2 = ref_trunks(X2, eps, aeps, noise)
+            ex2 = True if any(st2 is True for st2, _ in ref2) else (False if all(st2 is False for st2, _ in ref2) else None)
+            ctx.count("re_recognition_after_in_place_change")
+            if ok and ex2 is not None and bool(again) != ex2:
+                ctx.violation("stale_geometry", f"after {how} of rectangle {j} in place create_stog={again}, reference on the current geometry says {ex2}; now={[x.as_floats() for x in X2]}")
